@@ -67,54 +67,67 @@ Definition inline_all (fuel : nat) (P : program) : option (list (list instr)) :=
 (* ---- the lock-set checker: X = mutexes held exclusively, R = held shared ---- *)
 Definition guard_of (G : guard_map) (f : string) : option string := lookup f G.
 
-Fixpoint check (G : guard_map) (X R : list string) (c : list instr) : bool :=
+(* [O] (owner map, field -> token): a field all of whose writes are performed by ONE goroutine that
+   is started once per object (facts from the translator).  That goroutine holds the virtual
+   mutex [token] exclusively from start to end (the translator brackets its body with
+   Acq token / Rel token), its writes of the field must hold the token as well as the guard, and a
+   READ of the field is admitted when the reader holds the guard (any mode) OR the token — the
+   owner may read its own writes without the lock. *)
+Definition owner_map := list (string * string).
+Definition owner_of (O : owner_map) (f : string) : option string := lookup f O.
+Definition owner_held (O : owner_map) (f : string) (X : list string) : bool :=
+  match owner_of O f with Some t => mem t X | None => false end.
+Definition owner_ok (O : owner_map) (f : string) (X : list string) : bool :=
+  match owner_of O f with Some t => mem t X | None => true end.
+
+Fixpoint check (G : guard_map) (O : owner_map) (X R : list string) (c : list instr) : bool :=
   match c with
   | [] => match X, R with [], [] => true | _, _ => false end
-  | Acq m :: r => negb (mem m X) && negb (mem m R) && check G (m :: X) R r
-  | AcqR m :: r => negb (mem m X) && negb (mem m R) && check G X (m :: R) r
-  | Rel m :: r => mem m X && check G (rem m X) R r
-  | RelR m :: r => mem m R && check G X (rem1 m R) r
-  | Rd f :: r => match guard_of G f with Some m => mem m X || mem m R | None => false end && check G X R r
-  | WrW f :: r | WrE f :: r => match guard_of G f with Some m => mem m X | None => false end && check G X R r
+  | Acq m :: r => negb (mem m X) && negb (mem m R) && check G O (m :: X) R r
+  | AcqR m :: r => negb (mem m X) && negb (mem m R) && check G O X (m :: R) r
+  | Rel m :: r => mem m X && check G O (rem m X) R r
+  | RelR m :: r => mem m R && check G O X (rem1 m R) r
+  | Rd f :: r => (match guard_of G f with Some m => mem m X || mem m R | None => false end || owner_held O f X) && check G O X R r
+  | WrW f :: r | WrE f :: r => match guard_of G f with Some m => mem m X | None => false end && owner_ok O f X && check G O X R r
   | Call _ :: _ => false
-  | CallCb _ :: r | Send _ :: r | Recv _ :: r => check G X R r
+  | CallCb _ :: r | Send _ :: r | Recv _ :: r => check G O X R r
   end.
 
 Definition fuel0 : nat := 12.
 
 Definition well_locked (G : guard_map) (P : program) : bool :=
   match inline_all fuel0 P with
-  | Some bodies => forallb (check G [] []) bodies
+  | Some bodies => forallb (check G [] [] []) bodies
   | None => false
   end.
 
 (* diagnostics only (not used by any theorem): the first offending instruction *)
-Fixpoint explain (G : guard_map) (X R : list string) (c : list instr) : option string :=
+Fixpoint explain (G : guard_map) (O : owner_map) (X R : list string) (c : list instr) : option string :=
   match c with
   | [] => match X, R with [], [] => None | _, _ => Some "returns while still holding a mutex" end
   | Acq m :: r => if mem m X || mem m R then Some ("acquires " ++ m ++ " while already holding it")
-                  else explain G (m :: X) R r
+                  else explain G O (m :: X) R r
   | AcqR m :: r => if mem m X || mem m R then Some ("read-acquires " ++ m ++ " while already holding it")
-                   else explain G X (m :: R) r
-  | Rel m :: r => if mem m X then explain G (rem m X) R r else Some ("releases " ++ m ++ " without holding it")
-  | RelR m :: r => if mem m R then explain G X (rem1 m R) r else Some ("read-releases " ++ m ++ " without holding it")
+                   else explain G O X (m :: R) r
+  | Rel m :: r => if mem m X then explain G O (rem m X) R r else Some ("releases " ++ m ++ " without holding it")
+  | RelR m :: r => if mem m R then explain G O X (rem1 m R) r else Some ("read-releases " ++ m ++ " without holding it")
   | Rd f :: r => match guard_of G f with
-                 | Some m => if mem m X || mem m R then explain G X R r
+                 | Some m => if mem m X || mem m R || owner_held O f X then explain G O X R r
                              else Some ("reads " ++ f ++ " without holding " ++ m)
                  | None => Some ("reads " ++ f ++ " which has no guard") end
   | WrW f :: r | WrE f :: r =>
                  match guard_of G f with
-                 | Some m => if mem m X then explain G X R r
+                 | Some m => if mem m X && owner_ok O f X then explain G O X R r
                              else Some ("writes " ++ f ++ " without holding " ++ m ++ " exclusively")
                  | None => Some ("writes " ++ f ++ " which has no guard") end
   | Call g :: _ => Some ("call of " ++ g ++ " not inlined")
-  | CallCb _ :: r | Send _ :: r | Recv _ :: r => explain G X R r
+  | CallCb _ :: r | Send _ :: r | Recv _ :: r => explain G O X R r
   end.
 
 Definition diagnose (G : guard_map) (P : program) : list (string * string) :=
   flat_map (fun p => match inline fuel0 P (snd p) with
                      | None => [(fst p, "call depth exceeded or unknown callee")]
-                     | Some c => match explain G [] [] c with Some e => [(fst p, e)] | None => [] end
+                     | Some c => match explain G [] [] [] c with Some e => [(fst p, e)] | None => [] end
                      end) P.
 
 (* ---- entry points: goroutines start only in [entries]; the other functions are helpers that
@@ -124,18 +137,18 @@ Definition inline_entries (fuel : nat) (P : program) (entries : list string) : o
                            | Some body, Some l => match inline fuel P body with Some c => Some (c :: l) | None => None end
                            | _, _ => None end) (Some []) entries.
 
-Definition well_locked_from (G : guard_map) (P : program) (entries : list string) : bool :=
+Definition well_locked_from (G : guard_map) (O : owner_map) (P : program) (entries : list string) : bool :=
   match inline_entries fuel0 P entries with
-  | Some bodies => forallb (check G [] []) bodies
+  | Some bodies => forallb (check G O [] []) bodies
   | None => false
   end.
 
-Definition diagnose_from (G : guard_map) (P : program) (entries : list string) : list (string * string) :=
+Definition diagnose_from (G : guard_map) (O : owner_map) (P : program) (entries : list string) : list (string * string) :=
   flat_map (fun f => match lookup f P with
                      | None => [(f, "entry point without a translated body")]
                      | Some body => match inline fuel0 P body with
                                     | None => [(f, "call depth exceeded or unknown callee")]
-                                    | Some c => match explain G [] [] c with Some e => [(f, e)] | None => [] end
+                                    | Some c => match explain G O [] [] c with Some e => [(f, e)] | None => [] end
                                     end
                      end) entries.
 
